@@ -61,12 +61,14 @@ def _tiny_classes():
     class TinyOp(InterpolatingOpacity):
         """In-memory cross-section table: xsec[nP, nT, nW] in cm^2, pressures in Pa."""
 
-        def __init__(self, name, wn, T, P, xsec, mode='linear'):
+        def __init__(self, name, wn, T, P, xsec, mode='linear', keep_dtype=False):
             InterpolatingOpacity.__init__(self, 'tiny:' + name, interpolation_mode=mode)
             self._n = name
-            self._wn = np.array(wn, dtype=float)
-            self._T = np.array(T, dtype=float)
-            self._P = np.array(P, dtype=float)
+            # keep_dtype: the axes stay as they are handed over (an integer np.arange axis, a float32 axis read from a
+            # file) instead of being converted to float64
+            self._wn = np.array(wn) if keep_dtype else np.array(wn, dtype=float)
+            self._T = np.array(T) if keep_dtype else np.array(T, dtype=float)
+            self._P = np.array(P) if keep_dtype else np.array(P, dtype=float)
             self._x = np.array(xsec, dtype=float)
 
         moleculeName = property(lambda s: s._n)
@@ -79,8 +81,8 @@ def _tiny_classes():
     class TinyK(KTable, TinyOp):
         """In-memory k-table: kcoeff[nP, nT, nW, ng]."""
 
-        def __init__(self, name, wn, T, P, k, weights, mode='linear'):
-            TinyOp.__init__(self, name, wn, T, P, k, mode)
+        def __init__(self, name, wn, T, P, k, weights, mode='linear', keep_dtype=False):
+            TinyOp.__init__(self, name, wn, T, P, k, mode, keep_dtype)
             self._w = np.array(weights, dtype=float)
 
         weights = property(lambda s: s._w)
